@@ -26,11 +26,13 @@ def check_obligation(ex, ob, timeout_ms=10000, mode="all"):
         return ("refuted" if r == z3.unsat else "proved", dt, f"requires not contradictory ({r})")
     t0 = time.time()
     # stage 1: in-process, fixed configuration, short budget (decides the large majority of obligations)
-    s = _solver(2000 if mode != "external" else 1, True)
+    # ("external" repeats a very short in-process run: besides being cheap it makes the solver preprocess its assertions,
+    #  and the exported text of the PREPROCESSED query is what the fresh processes decide reliably)
+    s = _solver(2000 if mode != "external" else 100, True)
     s.add(*ax)
     s.add(*pc)
     s.add(z3.Not(goal))
-    r = s.check() if mode != "external" else z3.unknown
+    r = s.check()
     if r == z3.unsat:
         return "proved", time.time() - t0, "z3 e-matching (fast cfg)"
     if r == z3.sat:
@@ -66,8 +68,14 @@ def run_portfolio(solver, timeout_ms):
     fd, path = tempfile.mkstemp(suffix=".smt2", prefix="pyvc_")
     procs = []
     try:
+        # export from a FRESH z3 context: term numbering (hence the argument order of commutative operators in the printed
+        # query) then depends only on the query itself, not on the queries this process handled before
+        try:
+            text = solver.translate(z3.Context()).to_smt2()
+        except Exception:  # noqa: BLE001
+            text = solver.to_smt2()
         with os.fdopen(fd, "w") as f:
-            f.write("(set-logic ALL)\n" + solver.to_smt2())
+            f.write("(set-logic ALL)\n" + text)
         for cmd, label in cmds:
             procs.append((subprocess.Popen(cmd + [path], stdout=subprocess.PIPE, stderr=subprocess.DEVNULL, text=True), label))
         deadline = time.time() + sec + 5
